@@ -84,6 +84,8 @@ def space_cases(ctx, n_sample):
         vh, vw = rng.randint(1, 6), rng.choice([1, 3, 5, 7])
         if i % 5 == 0:
             h, w = 2, 2
+        if i % 9 == 4:  # degenerate worlds: a single row, a single column, a single cell
+            h, w = [(1, rng.randint(2, 6)), (rng.randint(2, 6), 1), (1, 1)][(i // 9) % 3]
         ts, cs = list(ts), list(cs)
         # declared lists as users write them: a type named twice, the implicit types (NoneGridObject, Hidden) named
         # explicitly, a colour named twice
